@@ -42,6 +42,7 @@ struct Worker {
 static std::mutex gm;
 static std::condition_variable sched_cv;
 static thread_local Worker *me = nullptr;
+static thread_local bool no_yield = false; // inside a maintenance call (not a thread-safe operation)
 static bool free_mode = false;
 
 // wait for an atomic condition: spin briefly (the baton usually comes back within microseconds),
@@ -71,8 +72,8 @@ static void park() {
 }
 
 extern "C" void cmac_verif_yield(const char *, const void *) {
-  if (me == nullptr)
-    return; // set-up code and the scheduler itself
+  if (me == nullptr || no_yield)
+    return; // set-up code, the scheduler itself, maintenance calls between phases
   if (free_mode) {
     // a thread that never finishes (a lock that is never released, ...) is aborted
     if (++me->yields > 30000000ull)
@@ -206,6 +207,16 @@ struct World {
   AtomicValue< uint_fast32_t > number_of_tasks;
   bool ms_only = true; // no program releases a slot with the raw ThreadSafeVector::free_element
   std::vector< size_t > nrunning; // per thread: popped tasks not yet handed to unlock_dependency
+  std::vector< std::vector< size_t > > owned; // per thread: slots in the caller's hands, newest first
+  std::vector< Worker > *workers = nullptr;
+  // the maintenance calls of ThreadSafeVector are only legal between parallel phases: premise
+  // "every other thread has completed its calls" (then the post-conditions are checked)
+  bool others_finished(int tid) const {
+    for (size_t t = 0; t < workers->size(); ++t)
+      if ((int)t != tid && !(*workers)[t].finished.load())
+        return false;
+    return true;
+  }
   int in_seed = 0;                // threads between add_task and pre_increment of the initial loop
 
   // results in completion order (schedule mode: written under the baton)
@@ -236,6 +247,7 @@ struct World {
       task.set_number_of_unfinished_parents(0);
     }
     nrunning.assign(sc.progs.size(), 0);
+    owned.assign(sc.progs.size(), std::vector< size_t >());
     for (auto &p : sc.progs)
       for (auto &c : p)
         if (c.op == "f")
@@ -379,7 +391,8 @@ static void run_program(World &w, int tid) {
   std::vector< Cmd > prog;
   for (size_t r = 0; r < reps; ++r)
     prog.insert(prog.end(), prog1.begin(), prog1.end());
-  std::vector< size_t > owned, held, mytasks, fin; // newest first, like the model
+  std::vector< size_t > &owned = w.owned[tid];     // (in the World: a bulk release drops everybody's slots)
+  std::vector< size_t > held, mytasks, fin;        // newest first, like the model
   std::vector< long > last_mx;                      // last value this thread saw in a max cell
   // buffer contents as this thread (the owner) left them: size, and in free mode a stamp
   std::vector< long > exp_size(w.sc.size + 1, -1), stamp_n(w.sc.size + 1, 0);
@@ -444,6 +457,14 @@ static void run_program(World &w, int tid) {
       } else if (op == "g" || i != w.sc.size) {
         Guard g(w.om);
         w.bad("get-returned-invalid-index");
+      } else if (w.others_finished(tid)) {
+        size_t nfl = 0;
+        for (size_t k = 0; k < w.sc.size; ++k)
+          nfl += w.pool->_locks[k]._value.load();
+        if (nfl < w.sc.size) {
+          Guard g(w.om);
+          w.bad("get_free_element_safe-reports-full-although-a-slot-is-free(" + std::to_string(nfl) + ")");
+        }
       }
       out("s" + std::to_string(i));
     } else if (op == "f" || op == "fb") {
@@ -589,6 +610,12 @@ static void run_program(World &w, int tid) {
       out("P" + std::to_string(c.a) + "." + (t == NO_TASK ? std::string("N") : std::to_string(t)));
     } else if (op == "qs") {
       out("Q" + std::to_string(c.a) + "." + std::to_string(w.queues[c.a]->size()));
+    } else if (op == "aw") {
+      // phase barrier of the caller: wait until a counter reached a value
+      long v;
+      while ((v = w.ctr[c.a].value()) < c.b) {
+      }
+      out("V" + std::to_string(c.a) + "." + std::to_string(v));
     } else if (op == "i" || op == "d" || op == "pi" || op == "pa" || op == "oa" || op == "ps" ||
                op == "ld") {
       long v = 0, delta = 0;
@@ -618,6 +645,84 @@ static void run_program(World &w, int tid) {
         w.ctr_expect[c.a] += delta;
       }
       out("V" + std::to_string(c.a) + "." + std::to_string(v));
+    } else if (op == "cl" || op == "cf" || op == "ca" || op == "gfe") {
+      // maintenance calls ("not meant to be thread safe"): executed as one piece, no yields
+      bool premise = w.others_finished(tid);
+      // premises stated in the source: clear_after(k) "all values before the offset are in use",
+      // get_free_elements on an empty vector
+      if (op == "ca")
+        for (long i = 0; i < c.a && (size_t)i < w.sc.size; ++i)
+          premise = premise && w.pool->_locks[i]._value.load();
+      if (op == "ca" && (size_t)c.a > w.sc.size)
+        premise = false;
+      if (op == "gfe") {
+        premise = premise && w.pool->_number_taken._value.load() == 0 && (size_t)c.a <= w.sc.size;
+        for (size_t i = 0; i < w.sc.size; ++i)
+          premise = premise && !w.pool->_locks[i]._value.load();
+      }
+      no_yield = true;
+      if (op == "cl")
+        w.pool->clear();
+      else if (op == "cf")
+        w.ms->reset();
+      else if (op == "ca")
+        w.pool->clear_after(c.a);
+      else
+        w.pool->get_free_elements(c.a);
+      no_yield = false;
+      {
+        Guard g(w.om);
+        if (op == "cl") {
+          for (auto &o : w.owned)
+            o.clear();
+          for (auto &x : w.slot_owner)
+            x = -1;
+        } else if (op == "ca") {
+          for (auto &o : w.owned) {
+            std::vector< size_t > keep;
+            for (size_t x : o)
+              if (x < (size_t)c.a)
+                keep.push_back(x);
+            o = keep;
+          }
+          for (size_t i = c.a; i < w.sc.size; ++i)
+            w.slot_owner[i] = -1;
+        } else if (op == "gfe") {
+          for (long i = 0; i < c.a && (size_t)i < w.sc.size; ++i) {
+            owned.insert(owned.begin(), (size_t)i);
+            w.slot_owner[i] = tid;
+          }
+        }
+        if (op != "cf")
+          for (auto &e : exp_size)
+            e = -1;
+        if (premise) {
+          const long taken = (long)w.pool->_number_taken._value.load();
+          size_t nfl = 0, nown = 0;
+          for (size_t i = 0; i < w.sc.size; ++i) {
+            nfl += w.pool->_locks[i]._value.load();
+            nown += (w.slot_owner[i] != -1);
+          }
+          if (taken != (long)nfl || nfl != nown)
+            w.bad(op + "-leaves-count-flags-holders-inconsistent(" + std::to_string(taken) + "," +
+                  std::to_string(nfl) + "," + std::to_string(nown) + ")");
+          if (op == "cl" && (nfl != 0 || w.pool->_current_index._value.load() != 0))
+            w.bad("clear-does-not-leave-an-empty-pool");
+        }
+      }
+      out(op == "cl" ? "CL" : op == "cf" ? "CF" : op == "ca" ? "CA" + std::to_string(c.a) : "GFE" + std::to_string(c.a));
+    } else if (op == "na") {
+      const long v = (long)w.pool->get_number_of_active_elements();
+      if (w.others_finished(tid)) {
+        size_t nfl = 0;
+        for (size_t i = 0; i < w.sc.size; ++i)
+          nfl += w.pool->_locks[i]._value.load();
+        Guard g(w.om);
+        if (v != (long)nfl || (v == 0) != (w.pool->_number_taken._value.load() == 0))
+          w.bad("occupancy-count-differs-from-number-of-slots-held-when-idle(" + std::to_string(v) + "," +
+                std::to_string(nfl) + ")");
+      }
+      out("NA" + std::to_string(v));
     } else if (op == "mx") {
       // AtomicValue::max: after the call returned the cell is at least the argument, and the
       // values one thread reads one after the other never decrease
@@ -718,6 +823,7 @@ static void run_scenario(const Scenario &sc, uint64_t lineno) {
   const size_t n = sc.progs.size();
   free_mode = (sc.mode == "F" || sc.mode == "G"); // "X" and "XI" are schedule replay
   std::vector< Worker > workers(n); // never resized
+  w.workers = &workers;
   std::vector< std::thread > threads;
   std::atomic< int > start_flag(0);
   for (size_t t = 0; t < n; ++t) {
